@@ -317,7 +317,7 @@ def handle (op : String) (args : List String) : String :=
       | some (l, r) => hx l ++ " " ++ hx r
     | none => "bad-op"
   | "deck.split", [h, nx] => match ofHex h, ofHex nx with
-    | some b, some [next] => match rawRecord b next with
+    | some b, some [_] => match rawRecord b with
       | none => "err"
       | some ts => if ts.isEmpty then "none" else ",".intercalate (ts.map hx)
     | _, _ => "bad-op"
@@ -341,7 +341,7 @@ def handle (op : String) (args : List String) : String :=
     | some b => bool01 (okDoubleTok b)
     | none => "bad-op"
   | "deck.parse", [sch, h, nx] => match parseSchema sch, ofHex h, ofHex nx with
-    | some items, some b, some [next] => match parseRecord conv items b next with
+    | some items, some b, some [_] => match parseRecord conv items b with
       | none => "err"
       | some r => showRecord r
     | _, _, _ => "bad-op"
@@ -360,7 +360,7 @@ def handle (op : String) (args : List String) : String :=
     | none => "bad-op"
   | "deck.wparse", [sch, split, rec] => match parseSchema sch, readRecord rec with
     | some items, some r =>
-      match parseRecord conv items (writtenRecordText idFmt OpmVerif.Gen.RawConsts.outFlushPendingDefaults (split == "1") r) 47 with
+      match parseRecord conv items (writtenRecordText idFmt OpmVerif.Gen.RawConsts.outFlushPendingDefaults (split == "1") r) with
       | none => "err"
       | some r' => showRecord r'
     | _, _ => "bad-op"
